@@ -288,7 +288,7 @@ def layered(inp):
         # Collect input.
         empymod_inp = {
             **empymod_opts,
-            'rec': rec.coordinates,
+            'rec': rec.coordinates_abs(src),
             'mrec': rec.xtype != 'electric',
             'depth': oned.grid.nodes_z[1:-1],
             'freqtime': freqs,
@@ -374,9 +374,12 @@ def _get_points(method, src, rec):
 
     """
 
-    # Get default points.
+    # Get default points (absolute position for relative receivers).
     p0 = src.center[:2]
-    p1 = rec.center[:2]
+    if getattr(rec, 'relative', False):
+        p1 = rec.center_abs(src)[:2]
+    else:
+        p1 = rec.center[:2]
 
     # If source or receiver, we re-set one point and rename the method
     if method == 'source':
